@@ -4,7 +4,7 @@
    (corpus/C19/ex-*.case). *)
 From GoCar Require Import Bytes Varint Cid Header Frame V2Header Scan Index Store CliCmds.
 From GoCarProofs Require Import BytesFacts VarintFacts CidFacts HeaderFacts ScanFacts ScanTrunc ScanTruncV2 StoreInv
-  CliBase CliWalk CliProducers CliConcat CliFilter CliClosure CliTheorems CliGet.
+  CliBase CliWalk CliProducers CliConcat CliFilter CliClosure CliTheorems CliGet CliAppend.
 
 Definition hok_true : bytes -> bytes -> option bool := fun _ _ => Some true.
 
@@ -268,6 +268,25 @@ Proof.
   - constructor; [split; [exact ex_blocks_ok|exact ex_hashes_ok]|].
     constructor; [split; [exact ex_blocks_ok|exact ex_hashes_ok]|constructor].
   - exact (proj2 concat_v2_witness).
+Qed.
+
+(* ---- car filter --append -------------------------------------------------------------------------------------- *)
+(* the existing output: the index-less CARv2 (no padding) of the same archive; appended: kc2's block is
+   already there (same multihash), nothing new is added, the identity block of the selection is dropped *)
+Definition ex_out0 : bytes := v2file 0 0 0 0 ex_v1 [].
+
+Example ex_filter_append :
+  exists out st_,
+    filter_car hok_true dec_header_canon [kc2; kci] false 2 true ex_v2 (Some ex_out0) = (true, Some out) /\
+    br_read_all hok_true dec_header_canon default_ropts out = Ok (2, ex_roots, mkscan ex_bs EEof) /\
+    inspect_car hok_true dec_header_canon true out = Ok st_ /\ is_count st_ = 4.
+Proof.
+  pose proof (filter_append_reads_back hok_true dec_header_canon dec_header_pragma [kc2; kci] false ex_hb ex_roots ex_bs ex_v2
+                ex_hb ex_roots ex_bs 0 0 0 [] ex_hdr_ok ex_blocks_ok ex_hashes_ok ex_indexable ex_valid_v2
+                ex_hdr_ok eq_refl ex_blocks_ok ex_hashes_ok) as H.
+  assert (Hd : ex_bs ++ dedup_from (map fst ex_bs) (filter (fun b => match_filter [kc2; kci] false (fst b)) ex_bs) = ex_bs)
+    by (vm_compute; reflexivity).
+  cbv zeta in H. rewrite Hd in H. apply H; nlt.
 Qed.
 
 (* ---- car get-block ------------------------------------------------------------------------------------------ *)
